@@ -34,12 +34,15 @@
 (* Builder terms (printed by BuilderMC, matched against cog's builder IR):          *)
 (*   option  [name, args : Seq(type term), asgs : Seq(assignment)]                  *)
 (*   asg     [path : Seq(field name), m : "direct" | "append" | "index",            *)
-(*            src : index of the argument holding the value,                        *)
+(*            src : index of the argument holding the value (0: the constant c),    *)
 (*            key : index of the argument holding the map key (0 = none)]           *)
 (*   call    [o : option index (0 = the constructor), as : Seq(JV)]                 *)
 EXTENDS Semantics
 
-Asg(path, m, src, key) == [path |-> path, m |-> m, src |-> src, key |-> key]
+Asg(path, m, src, key) == [path |-> path, m |-> m, src |-> src, key |-> key, c |-> NoJ]
+\* a CONSTANT assignment riding on an option (veneer add_assignment): src = 0, c = the constant
+AsgC(path, v) == [path |-> path, m |-> "direct", src |-> 0, key |-> 0, c |-> v]
+ArgOf(a, as) == IF a.src = 0 THEN a.c ELSE as[a.src]
 Opt(name, args, asgs)  == [name |-> name, args |-> args, asgs |-> asgs]
 
 HasField(t, n) == \E f \in Range(t.fields) : f.n = n
@@ -66,6 +69,10 @@ TypeAt(S, key, t, path) ==
 RECURSIVE Unwrap(_, _)
 Unwrap(S, t) == CASE t.k = "ref" -> Unwrap(S, S[t.name]) [] t.k = "nullable" -> Unwrap(S, t.t) [] OTHER -> t
 ElemType(S, t) == Unwrap(S, t).t                   \* of an array / a map
+\* the schema fixes the field's value: an inline constant, or a REQUIRED non-nullable reference to a named constant
+\* (an optional reference to a constant may be left unset: it keeps its option)
+IsConstF(S, f) == f.t.k = "const" \/ (f.req /\ ~f.null /\ f.t.k = "ref" /\ Unwrap(S, f.t).k = "const")
+ConstVal(S, f) == Unwrap(S, f.t).v
 
 \* does an argument of this type go through nested builders (struct-like somewhere inside)?
 RECURSIVE IsBuilderArg(_, _)
@@ -95,7 +102,7 @@ RECURSIVE Built(_, _, _, _, _), Overlay(_, _, _, _, _, _)
 Overlay(S, D, key, t, acc, ps) ==
   IF ps = <<>> THEN acc
   ELSE LET m == Head(ps) IN
-       IF ~HasField(t, m.k) \/ IsConst(FieldOf(t, m.k)) THEN Overlay(S, D, key, t, acc, Tail(ps))
+       IF ~HasField(t, m.k) \/ IsConstF(S, FieldOf(t, m.k)) THEN Overlay(S, D, key, t, acc, Tail(ps))
        ELSE Overlay(S, D, key, t,
                     SetMember(acc, m.k, Built(S, D, key \o "." \o m.k, FieldOf(t, m.k).t, m.v)), Tail(ps))
 Built(S, D, key, t, v) ==
@@ -137,10 +144,10 @@ DoAsgs(L, S, D, rk, rt, st, asgs, as) ==
   ELSE LET a   == Head(asgs)
            ty  == TypeAt(S, rk, rt, a.path)
            vt  == IF a.m = "direct" THEN ty.t ELSE ElemType(S, ty.t)
-           b   == Built(S, D, ty.key, vt, as[a.src])
+           b   == Built(S, D, ty.key, vt, ArgOf(a, as))
            \* python reports by the option call: what can violate is the argument itself (a nested python builder has no
            \* Build() that fails: members it was never given are not arguments); go reports the nested Build() / the final Validate()
-           bad == BadArg(S, vt, IF L = "python" THEN as[a.src] ELSE b)
+           bad == BadArg(S, vt, IF L = "python" THEN ArgOf(a, as) ELSE b)
            mk  == IF a.key = 0 THEN NoJ ELSE as[a.key]
        IN IF bad /\ L = "python" THEN [st |-> st, raised |-> TRUE, bad |-> TRUE]
           ELSE IF bad /\ IsBuilderArg(S, vt) THEN [st |-> St(st.obj, st.errs \cup {a.path}), raised |-> FALSE, bad |-> TRUE]
@@ -176,7 +183,7 @@ ConstsOK(S, t, v) ==
     [] t.k = "dunion" /\ v.j = "obj" -> \E r \in Range(t.refs) : ConstsOK(S, S[r], v)
     [] t.k = "struct" /\ v.j = "obj" ->
          \A f \in Range(t.fields) :
-           IF IsConst(f) THEN Member(v, f.n) = f.t.v
+           IF IsConstF(S, f) THEN Member(v, f.n) = ConstVal(S, f)
            ELSE Member(v, f.n).j \in {"none", "null"} \/ ConstsOK(S, f.t, Member(v, f.n))
     [] OTHER -> TRUE
 
@@ -251,8 +258,14 @@ BaseAt(S, D, key, t, d, v, path) ==
      ELSE LET cs    == AsStruct(S, ck, FieldOf(s.t, n).t)
               child == IF dn.j = "obj" THEN dn ELSE IF vn.j = "obj" THEN D[cs.key] ELSE NoJ
           IN IF child.j # "obj" THEN NoJ ELSE BaseAt(S, D, ck, FieldOf(s.t, n).t, child, vn, Tail(path))
-OptNeeded(S, t, D, key, o, v) ==
-  \E i \in DOMAIN o.asgs : ~SameObj(AtPath(v, o.asgs[i].path), BaseAt(S, D, key, t, D[key], v, o.asgs[i].path))
+\* an option that also assigns constants can only be part of a reproduction of v when v holds those constants; it is
+\* needed for what its ARGUMENTS set (another option may set what its constants set)
+Applicable(o, v) == \A i \in DOMAIN o.asgs : o.asgs[i].src = 0 => SameObj(AtPath(v, o.asgs[i].path), o.asgs[i].c)
+ArgTargetDiffers(S, t, D, key, o, v) ==
+  \E i \in DOMAIN o.asgs : o.asgs[i].src > 0 /\ ~SameObj(AtPath(v, o.asgs[i].path), BaseAt(S, D, key, t, D[key], v, o.asgs[i].path))
+OptNeeded(S, t, D, key, o, v) == Applicable(o, v) /\ ArgTargetDiffers(S, t, D, key, o, v)
+\* values the builder API is meant for: a member that only an option with constants can set goes together with those constants
+Coherent(S, t, D, key, b, v) == \A i \in DOMAIN b.opts : ArgTargetDiffers(S, t, D, key, b.opts[i], v) => Applicable(b.opts[i], v)
 \* (S, key, t) = the struct the builder is for. An appending option whose argument is ONE branch of the list's union
 \* (disjunction_as_options) is needed once per element of that branch.
 Want(S, key, t, o, v) ==
